@@ -17,10 +17,13 @@ def ofOpt (o : Option Val) (e : Nat) : R Val :=
 def Stab (buf : Buf) (ty : Ty) (j : Json) (e : Nat) (r : R Val) : Prop :=
   ∃ g0, ∀ g, g0 ≤ g → ofOpt (decode buf g ty j) e = r
 
+def fname : Field → List UInt8
+  | .mk n _ _ => n
+
 mutual
 /-- the types for which the refinement is proved: everything except `&str` (the reference does not look at
     escapes), 128-bit integers (their scanner stops inside a longer number token) and non-string map keys
-    (read from the raw text of the key) -/
+    (read from the raw text of the key); the fields of a struct have different names -/
 def cov : Ty → Bool
   | .bool => true
   | .int bits _ => decide (bits ≤ 64)
@@ -34,8 +37,8 @@ def cov : Ty → Bool
   | .tuple ts => covL ts
   | .newtype t => cov t
   | .map k v => (match k with | .str => true | _ => false) && cov v
-  | .struct fields _ => covF fields && false
-  | .enum vs => covV vs && false
+  | .struct fields _ => covF fields && decide ((fields.map fname).Nodup)
+  | .enum vs => covV vs
   | .bytes => true
 def covL : List Ty → Bool
   | [] => true
@@ -48,7 +51,7 @@ def covV : List Variant → Bool
   | .unit _ :: r => covV r
   | .newtype _ t :: r => cov t && covV r
   | .tuple _ ts :: r => covL ts && covV r
-  | .struct _ fs :: r => covF fs && covV r
+  | .struct _ fs :: r => covF fs && decide ((fs.map fname).Nodup) && covV r
 end
 
 /-- types that look at the text themselves (`Option` and newtype structs hand it on) -/
